@@ -166,9 +166,9 @@ func corrVersions(ctx *Ctx, e *Eco, cands []string, p *Pool, m [][]int) {
 
 func checkC01(ctx *Ctx) {
 	res := ctx.Res
-	n := 110
+	n := 170
 	if !ctx.Quick {
-		n = 260
+		n = 420
 	}
 	res.Rule = "per ecosystem: pool of distinct accepted versions from the grammar-directed generator (8% mutated) plus corpus; laws on all pairs and all triples of the pool on the implementation; V-layer correspondence (accept, String, sign of Compare) on all ASCII candidates and all pool pairs. non-trivial = unordered pool pairs that compare unequal"
 	dist := map[string]any{}
